@@ -5,7 +5,13 @@ import vcheck
 from vcheck import DiffProperty
 
 ARITY = {"ba": 1, "ga": 2, "ia": 1, "ma": 1, "baN": 2, "gaN": 2, "iaN": 2, "maN": 2, "lt": 1, "li": 1, "lm": 1,
-         "ln": 2, "al": 2, "ti": 1, "tu": 1, "vs": 1, "vt": 1, "vc": 1, "sw": 0, "fin": 0}
+         "ln": 2, "al": 2, "ti": 1, "tu": 1, "vs": 1, "vt": 1, "vc": 1, "sw": 0, "fin": 0,
+         "pi": 2, "pt": 1, "pb": 1, "pv": 1, "ps": 1, "tb": 0, "px": 1}
+# slots of harness/c06_tpl.cpp = g_slots of coq/C06/TplModel.v (marker "tpl")
+NSLOTS = 34
+FIXED_SLOTS = list(range(0, 17))
+GEN_SLOTS = list(range(17, 25))
+SPANC_SLOTS = list(range(25, 34))
 # operations the C++ wrappers of mpt++/type_traits_wrap.cpp offer (cases with the marker "cxx")
 CXX_OPS = ("ba", "ga", "ia", "ma", "baN", "gaN", "iaN", "maN", "lt", "ln")
 
@@ -34,7 +40,15 @@ class C06(DiffProperty):
             "its name in both lookup modes; 'fin' = process exit (the atexit clean-up functions run in exit order through seams for atexit/free: "
             "every block reachable from the statics freed exactly once, nothing else freed, statics reset), operations after it see the registry a "
             "later exit handler would see; cases marked 'cxx' run the same registrations/lookups through the C++ wrappers of "
-            "mpt++/type_traits_wrap.cpp (ints incl. negative and INT_MIN/INT_MAX for type_traits::get(int), default arguments). Classes: every capacity reached and exceeded (64 basic, 48+16 interfaces, 1791+1 metatypes, "
+            "mpt++/type_traits_wrap.cpp (ints incl. negative and INT_MIN/INT_MAX for type_traits::get(int), default arguments); cases marked 'tpl' "
+            "(harness/c06_tpl.cpp) drive the template layer of mptcore/types.h: type_properties<T>::id(obtain) and ::traits() for 34 instantiations "
+            "(13 built-in scalars/strings, value, convertable*, iterator*, source<double>*; 4 user structs/classes through the primary template; "
+            "T* for a user and a built-in pointee; span<T> of both; span<const T> for double, char, const char*, long double, int32_t, value, two user "
+            "types and a pointer), in both slot orders, without and with obtaining, repeated, element type registered before and after its span, "
+            "interleaved with registrations through the wrappers, with the generic range exhausted before / in between (1789..1792 foreign "
+            "registrations); traits() is compared by size, init/fini presence and by whether type_traits::get(id(false)) is the very same object; "
+            "the init/fini functions of the primary template are run on a scratch object (op px); basetype(id) for every range end and "
+            "MPT_type_toVector/toScalar for 0x3e..0x7c and outliers. Classes: every capacity reached and exceeded (64 basic, 48+16 interfaces, 1791+1 metatypes, "
             "1792 generic), counts at chunk multiples of 30 +-1, duplicate/cross-kind/builtin/alias/short names, ids at every range end; "
             "a case is non-trivial when it registers something or looks something up; distinct = distinct case text")
     modelled = ("mptcore/types/type_traits.c (all entry points), types/alias_typeid.c, types/type_int.c, message/msgvalfmt.c transcribed in "
@@ -45,9 +59,16 @@ class C06(DiffProperty):
                 "mpt++/type_traits_wrap.cpp: type_traits::get(int) as OpWrapTraits (int -> uintptr_t conversion), the other wrappers are "
                 "the forwarded operations; process exit: state reset to the fresh registry, fini_counts = released registered entries/chunks "
                 "(which built-in tables exist at exit depends on lazy creation, which is modelled as done at start and therefore not "
-                "compared); malloc failure is not modelled; "
+                "compared); the template layer of mptcore/types.h (type_properties<T>::id/traits for the primary template, T*, span<T>, "
+                "span<const T> and the full specialisations; basetype; MPT_type_toVector/toScalar; behaviour of _init/_fini) in coq/C06/TplModel.v: "
+                "written ONCE, generic in the registry it talks to (through type_traits::add = OpTypeAdd and type_traits::get(int) = OpWrapTraits "
+                "only), state = the function-local statics (_valtype per instantiation, cached traits pointer of span<const T>), instantiated with "
+                "the mechanism model (M) and with the specification (S); slot table g_slots mirrored by harness/c06_tpl.cpp (sizeof checked by "
+                "static_assert and op tb); malloc failure is not modelled; "
                 "errno/error-code kinds and the raw positions of a sweep are compared between code and M but are not part of S")
-    trusted = ["harness/c06_wrap.cpp compiles mpt++/type_traits_wrap.cpp into its own translation unit (same source, no mpt++ archive)",
+    trusted = ["harness/c06_wrap.cpp and harness/c06_tpl.cpp compile mpt++/type_traits_wrap.cpp into their own translation units (same source, no mpt++ archive)",
+               "harness/c06_tpl.cpp: the instantiation table (34 types) is hand-written and must match g_slots of coq/C06/TplModel.v (sizes compared by op tb, "
+               "kinds by the behaviour of every case); the test classes (a 24-byte struct, a class whose constructor stores 7 and destructor stores 0, ...) are defined there",
                "harness/c06_probe.c: the list of C types each named built-in id stands for (ctypes[]) is hand-written from types.h; everything else "
                "in Gen_Types.v is read from the included type_traits.c or obtained by calling the code",
                "harness/c06_types.c runs each case in a forked child of a parent that never touches the registry; it reads "
@@ -65,7 +86,16 @@ class C06(DiffProperty):
                   "C06_lookup_stable_via_spec, C06_builtins_exactly_listed (every id the fresh registry describes is a listed built-in with "
                   "the sizeof of its C type AND every listed one is described so after every history); C06_cxx_get_transparent (the C++ "
                   "wrapper get(int) is mpt_type_traits on non-negative ints and finds nothing on negative ones, for all ints) and "
-                  "C06_exit_releases_registered (the atexit clean-up releases as many registered entries as ids were handed out). (3) Direct theorems on the mechanism "
+                  "C06_exit_releases_registered (the atexit clean-up releases as many registered entries as ids were handed out). (2b) The C++ template "
+                  "layer of types.h (coq/C06/TplSim.v, TplProps.v; histories = template calls interleaved with ANY wrapper operations, from a fresh "
+                  "process): C06_tpl_refines_spec (the layer over M and the layer over S run in lock step: same cached ids, same cached descriptions, same "
+                  "answers up to the error code - proved generically for any two registries that simulate each other, instantiated with "
+                  "C06_step_refines_spec), C06_tpl_id_stable (an id cached for an instantiation is cached after any further history and is what every later "
+                  "id() answers, obtaining or not), C06_tpl_ids_distinct (two instantiations never share a registered id), C06_tpl_id_described (id() "
+                  "answers the constant of a specialisation / an id of the generic range that the registry describes with the very description object of "
+                  "that instantiation: sizeof T, init/fini / for span<const T> such an id or the vector id of the built-in element / or a refusal - nothing "
+                  "else), C06_tpl_traits_size (traits() of every instantiation hands out a non-null description whose size is sizeof of the C++ type, "
+                  "whichever of cache / registry / own object it comes from), C06_basetype_range, C06_basetype_metaptr. (3) Direct theorems on the mechanism "
                   "model, no op_wf: C06_ids_unique, C06_issued_fresh, C06_ids_in_kind_range, C06_lookup_stable, C06_name_id_bijection, "
                   "C06_dup_or_short_refused, C06_exhaustion_preserves, C06_exhausted_refused, C06_no_fault, C06_builtin_sizes_correct / "
                   "C06_helpers_consistent (finite sweeps over the generated tables). All facts about generated bounds/tables are re-checked "
@@ -76,10 +106,14 @@ class C06(DiffProperty):
                   "correspondence run, not verified); the probe's list of C types behind the built-in ids; extraction and OCaml driver; "
                   "harness (incl. the atexit/free seams and the block census of 'fin', which is written against the statics, not against "
                   "the clean-up code). Not modelled: malloc failure; the ORDER of lazy table creation (hence which built-in tables exist at "
-                  "exit) - the harness checks those blocks itself; the C++ template layer above the wrappers (type_properties<T>). "
+                  "exit) - the harness checks those blocks itself. The template theorems are about the 34 instantiations of the slot table (kinds: "
+                  "specialisation, primary/pointer/span<T>, span<const T> over a specialised or generic element - nested span<const span<..>> is "
+                  "not in the table); an id is kept as the C++ int it is (int_wrap at type_traits::get). value::operator=(T) / value::get<T> / "
+                  "assign<T> / convertable::operator T* (users of id(true)) and mpt::source<T> are not modelled here. "
                   "The refinement theorems assume op_wf (ids < 2^g_WordBits, i.e. representable as uintptr_t); finite maps of S are "
                   "sorted association lists (canonical, so state refinement is an equation). "
-                  "All 26 theorems are closed under the global context (no axioms).")
+                  "All 33 theorems are closed under the global context (no axioms). No defect was found in the template layer (three hand-made "
+                  "breaking changes in types.h are caught, see docs/notes_C06.md).")
     technique = "Coq refinement proof (mechanism model [= finite-map specification, every operation, all histories) + invariant proofs + generated-table sweep + differential correspondence check"
     assumptions = ["malloc/calloc succeed", "the caller keeps registered generic traits objects alive and unchanged",
                    "single-threaded use of the registry"]
@@ -107,12 +141,19 @@ class C06(DiffProperty):
         vcheck.build_harness("c06_probe.c", ["mptcore"])
         vcheck.build_harness(self.harness_src, self.libs, extra=self.extra_harness_flags)
         vcheck.build_harness(self.cxx_harness_src, self.libs)
+        vcheck.build_harness(self.tpl_harness_src, self.libs)
         vcheck.build_model(self.mlname, self.driver, self.extract_vo)
 
     # ---------------------------------------------------------------- two harness binaries
     # cases that start with the marker "cxx" are run through the C++ wrappers (harness/c06_wrap.cpp, which
     # compiles mpt++/type_traits_wrap.cpp into its translation unit), the others through harness/c06_types.c
     cxx_harness_src = "c06_wrap.cpp"
+    # cases that start with the marker "tpl" drive the template layer of mptcore/types.h (harness/c06_tpl.cpp)
+    tpl_harness_src = "c06_tpl.cpp"
+
+    @staticmethod
+    def is_tpl(case):
+        return case.split()[:1] == ["tpl"]
 
     @staticmethod
     def is_cxx(case):
@@ -122,8 +163,9 @@ class C06(DiffProperty):
         hx = vcheck.build_harness(self.harness_src, self.libs, extra=self.extra_harness_flags)
         mx = vcheck.build_model(self.mlname, self.driver, self.extract_vo)
         ided = ["c%d %s" % (i, c) for i, c in enumerate(cases)]
-        c_cases = [l for l, c in zip(ided, cases) if not self.is_cxx(c)]
+        c_cases = [l for l, c in zip(ided, cases) if not self.is_cxx(c) and not self.is_tpl(c)]
         x_cases = [l for l, c in zip(ided, cases) if self.is_cxx(c)]
+        t_cases = [l for l, c in zip(ided, cases) if self.is_tpl(c)]
         I, errs = {"I": {}}, []
         if c_cases:
             r, e = vcheck.run_cases(hx, c_cases, workdir, "impl" + tagsuffix, env=self.harness_env, args=self.harness_args)
@@ -131,6 +173,10 @@ class C06(DiffProperty):
         if x_cases:
             cx = vcheck.build_harness(self.cxx_harness_src, self.libs)
             r, e = vcheck.run_cases(cx, x_cases, workdir, "implcxx" + tagsuffix, env=self.harness_env, args=self.harness_args)
+            I["I"].update(r.get("I", {})); errs += e
+        if t_cases:
+            tx = vcheck.build_harness(self.tpl_harness_src, self.libs)
+            r, e = vcheck.run_cases(tx, t_cases, workdir, "impltpl" + tagsuffix, env=self.harness_env, args=self.harness_args)
             I["I"].update(r.get("I", {})); errs += e
         M, e2 = vcheck.run_cases(mx, ided, workdir, "model" + tagsuffix)
         res = []
@@ -152,8 +198,8 @@ class C06(DiffProperty):
     def split(self, case):
         t = case.split()
         hdr = []
-        if t[:1] == ["cxx"]:
-            hdr, t = ["cxx"], t[1:]
+        if t[:1] in (["cxx"], ["tpl"]):
+            hdr, t = t[:1], t[1:]
         ops = []
         i = 0
         while i < len(t):
@@ -189,7 +235,22 @@ class C06(DiffProperty):
     def classify(self, case):
         hdr, ops = self.split(case)
         cl = set()
-        if hdr:
+        if hdr == ["tpl"]:
+            cl.add("cxx-templates")
+            seen = {}
+            for o in ops:
+                if o[0] in ("pi", "pt"):
+                    k = int(o[1])
+                    kind = "fixed" if k in FIXED_SLOTS else ("generic" if k in GEN_SLOTS else "span-const")
+                    cl.add("tpl:%s:%s" % (o[0], kind))
+                    if o[0] == "pi":
+                        if o[2] == "0":
+                            cl.add("tpl:id-without-obtain")
+                        if seen.get(k):
+                            cl.add("tpl:repeated-instantiation")
+                        if o[2] != "0":
+                            seen[k] = True
+        elif hdr:
             cl.add("cxx-wrappers")
             if any(o[0] == "lt" and int(o[1], 0) < 0 for o in ops):
                 cl.add("cxx-negative-id")
@@ -393,6 +454,65 @@ class C06(DiffProperty):
             cases.append(self.cxx_history(rng, rng.choice([3, 6, 10, 16, 25])))
         return cases
 
+    # ---- G. the template layer of types.h
+    def tpl_history(self, rng, nops):
+        ops = []
+        ng = 0
+        for _ in range(nops):
+            r = rng.random()
+            k = rng.choice(GEN_SLOTS + SPANC_SLOTS + GEN_SLOTS + SPANC_SLOTS + FIXED_SLOTS)
+            if r < 0.35:
+                ops.append("pi %d %d" % (k, rng.choice([1, 1, 1, 0])))
+            elif r < 0.6:
+                ops.append("pt %d" % k)
+            elif r < 0.7:
+                ops.append("ga %d %d" % (rng.choice([1, 8, 16, 24]), rng.randrange(4)))
+                ng += 1
+            elif r < 0.76:
+                ops.append("gaN %d 8" % rng.choice([1, 2, 28, 29, 30, 31]))
+            elif r < 0.88:
+                ops.append("lt %d" % rng.choice([0x900 + rng.randrange(0, 40), 0x900, 0x901, 68, 67, 83, 69, 73, 0x19, 0x80, 0x86, 100,
+                                                 -3, 0, 0x8ff, 0xfff]))
+            elif r < 0.92:
+                ops.append(rng.choice(["ba 8", "ia -", "ma -", "ia hello", "ln iterator d"]))
+            elif r < 0.935:
+                ops.append("px %d" % rng.choice(GEN_SLOTS + [0, 25, 28]))
+            elif r < 0.96:
+                ops.append("pb %s" % hex(rng.choice(EDGE_IDS + [0x802, 0x801, 0x80, 0x100, 0x7ff, 0x800, 0x803, 0xff, 0x100])))
+            else:
+                ops.append("%s %d" % (rng.choice(["pv", "ps"]), rng.choice([-3, 0, 0x3f, 0x40, 0x41, 0x59, 0x5a, 0x5b, 0x5f, 0x60, 0x61,
+                                                                             0x64, 0x7a, 0x7b, 0x80, 0x160, 0x164, 0x900, 0x961, 2**31 - 1, -2**31])))
+        return "tpl " + " ".join(ops)
+
+    def tpl_cases(self, rng, tier):
+        allk = list(range(NSLOTS))
+        cases = ["tpl tb"]
+        # every slot: id without obtaining, traits, id obtained twice, traits again; in both slot orders
+        for order in (allk, allk[::-1]):
+            cases.append("tpl " + " ".join("pi %d 0" % k for k in order))
+            cases.append("tpl " + " ".join("pi %d 0 pt %d pi %d 1 pi %d 1 pi %d 0 pt %d" % (k, k, k, k, k, k) for k in order))
+            cases.append("tpl " + " ".join("pt %d pt %d pi %d 1" % (k, k, k) for k in order))
+            cases.append("tpl " + " ".join("pi %d 1" % k for k in order) + " " + " ".join("pi %d 1 pt %d" % (k, k) for k in order)
+                         + " " + " ".join("lt %d" % (0x900 + i) for i in range(16)))
+        # element type registered before / after its span<const T>
+        cases.append("tpl pi 17 1 pi 28 0 pi 28 1 pt 28 pi 28 1 pt 17 lt 2304 lt 2305")
+        cases.append("tpl pi 28 0 pi 28 1 pi 17 1 pi 28 1 pt 28 pt 17 lt 2304 lt 2305")
+        cases.append("tpl pt 28 pi 28 0 pi 17 0 pi 17 1 pt 28 lt 2304 lt 2305")
+        cases.append("tpl pi 21 1 pi 32 1 pt 32 pi 32 1 pi 21 1")
+        cases.append("tpl pi 25 0 pt 25 pi 25 1 lt 68 pi 31 0 pt 31 lt 69 pi 26 0 pt 26 lt 67 pi 27 0 pt 27 lt 83 pi 33 0 pt 33 lt 73 pi 30 0 pt 30 pi 30 1 pt 30")
+        # interleaved with other registrations: the ids move, the cached ones do not
+        cases.append("tpl ga 8 0 pi 17 1 ga 8 0 pi 18 1 pi 17 1 gaN 30 8 pi 19 1 pi 17 1 pi 18 1 pt 17 pt 18 pt 19 lt 2304 lt 2305 lt 2307 lt 2338")
+        # the generic range runs out: refused (and retried), earlier ids and descriptions stay
+        for c in (1789, 1790, 1791, 1792):
+            cases.append("tpl pi 17 1 gaN %d 8 pi 18 1 pi 19 1 pi 28 1 pi 18 1 pi 17 1 pt 17 pt 18 pt 19 pt 28 pt 29 pi 29 1 pi 18 0 lt 2304 lt 4095" % c)
+        cases.append("tpl gaN 1792 8 " + " ".join("pi %d 1 pt %d" % (k, k) for k in allk))
+        cases.append("tpl " + " ".join("px %d" % k for k in allk) + " pi 18 1 px 18 pt 18 px 17")
+        cases.append("tpl " + " ".join("pb %s" % hex(i) for i in EDGE_IDS if i < 2**32))
+        cases.append("tpl " + " ".join("pv %d ps %d" % (i, i) for i in list(range(0x3e, 0x7d)) + [-3, -1, 0, 1, 0x80, 0x140, 0x160, 0x900, 0x961]))
+        for i in range(60 if tier == "quick" else 4000):
+            cases.append(self.tpl_history(rng, rng.choice([4, 8, 12, 20, 30])))
+        return cases
+
     def generate(self, rng, tier):
         cases = []
         # A. the fresh registry: every id, every range end, every built-in name in every mode
@@ -453,6 +573,8 @@ class C06(DiffProperty):
             cases.append("%s fin" % h1 if rng.random() < 0.3 else "%s fin %s fin" % (h1, h2))
         # F. the same registry through the C++ wrappers of mpt++/type_traits_wrap.cpp
         cases += self.cxx_cases(rng, tier)
+        # H. the C++ template layer of mptcore/types.h (type_properties<T>, basetype, vector/scalar id arithmetic)
+        cases += self.tpl_cases(rng, tier)
         return cases
 
 
